@@ -209,13 +209,18 @@ def rstrip(interp, t, chars, tg):
     pad_re = z3.Star(z3.Re(cl))
     parts = flatten_concat(simp(t))
     # structural case: base ++ pad where pad in chars* and base does not end with chars
+    # candidate cuts: the tail parts[cut:] consists of pad characters only; prefer the longest such tail
+    cuts = []
     for cut in range(len(parts), -1, -1):
         tail = parts[cut:]
-        base = parts[:cut]
         if tail and not (S.is_rep_of(tail[0], cl) or ctx.entails(z3.InRe(concat(tail), pad_re))):
             break
+        cuts.append(cut)
+    for cut in reversed(cuts):
+        base = parts[:cut]
         b = simp(concat(base))
-        if ctx.known(z3.Not(z3.SuffixOf(chars, b))) or (not base) or ctx.entails(z3.Not(z3.SuffixOf(chars, b))):
+        b64_tail = bool(base) and S.is_b64u_app(base[-1]) and S.b64u_free_of(base[-1], chars)   # alphabet axiom, syntactic instance
+        if b64_tail or (not base) or ctx.known(z3.Not(z3.SuffixOf(chars, b))) or ctx.entails(z3.Not(z3.SuffixOf(chars, b))):
             return interp.mk(tg, b)
     r = ctx.fresh("rstrip", StringSort)
     pads = ctx.fresh("rstrip_pad", StringSort)
